@@ -2,7 +2,7 @@
    examples (concrete objects satisfying the hypotheses of the theorems exported in Props.v). *)
 From Coq Require Import ZArith List Bool Lia Permutation QArith Qcanon.
 Require Export MV.Lib.Base MV.C13.Defs MV.C13.Geom MV.C13.Gen MV.C13.Model MV.C13.Run.
-Require Export MV.C13.Proofs_Base MV.C13.Proofs_Counts MV.C13.Proofs_Topo MV.C13.Proofs_Geom
+Require Export MV.C13.Proofs_Base MV.C13.Proofs_Counts MV.C13.Proofs_Topo MV.C13.Proofs_Geom MV.C13.Proofs_GeomQ MV.C13.Proofs_GeomF MV.C13.Proofs_GeomV
                MV.C13.Proofs_Accept MV.C13.Proofs_Accept2 MV.C13.Proofs_Vol MV.C13.Proofs_Arg MV.C13.Proofs_Manifold MV.C13.Proofs_Manifold2 MV.C13.Proofs_Euler.
 Import ListNotations.
 Open Scope Z_scope.
